@@ -137,6 +137,10 @@ func (w *concWorld) run(op string, proc, reps int) {
 			w.rib.Dump()
 			w.out[0].Dump()
 			w.in.Dump()
+		case "unreg": // a client that is not registered (a second Unregister, or one that never registered)
+			w.in.Unregister(w.cnt[1])
+			w.rib.Unregister(w.cnt[1])
+			w.out[0].Unregister(w.cnt[1])
 		case "cmlate":
 			w.cmx.RegisterWithOptions(w.cnt[0], routingtable.ClientOptions{BestOnly: true})
 		case "cmuse":
@@ -215,7 +219,7 @@ func init() {
 						}
 					}
 					sort.Strings(stuck)
-					return &core.Divergence{Step: 0, Action: "Scenario", Field: "completion", Kind: "hang", Class: "stuck:" + strings.Join(dedupStr(stuck), "+"),
+					return &core.Divergence{Step: 0, Action: "Scenario", Field: "completion", Kind: "hang", Class: "stuck:" + strings.Join(dedupStr(opKinds(stuck)), "+"),
 						Want: "every operation completes", Got: fmt.Sprintf("not finished after %s: %v", deadline, stuck),
 						Detail: fmt.Sprintf("round %d, %d repetitions per operation; goroutines blocked in: %s", r+1, reps, blockedIn())}
 				}
@@ -291,5 +295,15 @@ func dedupStr(l []string) []string {
 			out = append(out, x)
 		}
 	}
+	return out
+}
+
+// opKinds drops the session number of an operation name (exp1, exp2 -> exp).
+func opKinds(l []string) []string {
+	out := []string{}
+	for _, x := range l {
+		out = append(out, strings.TrimRight(x, "0123456789"))
+	}
+	sort.Strings(out)
 	return out
 }
